@@ -3,7 +3,7 @@
 (* Leg M + generator for Leg R.                                            *)
 (* Profile "preds": every sequence of 1..MaxIn predicate inputs over ALL   *)
 (*   outcome variants (returns one with declared gas exact / one short /   *)
-(*   one too much, wrong owner, returns zero, reverts, panics, never       *)
+(*   one too much, wrong owner, returns zero, returns two, panics, never       *)
 (*   terminates, second program with a loop, need above the cap) and ALL   *)
 (*   completion orders of the tasks, in verification and estimation mode.  *)
 (* Profile "mixed": signed inputs (witness index 0/1/out of range, two     *)
@@ -36,14 +36,14 @@ VerifyVariants == {
     Pred(TRUE, PA, BNM!Add(N(PA), "1")),             \* one unit too much: gas left over
     Pred(FALSE, PA, N(PA)),                          \* owner is not the predicate address
     Pred(TRUE, P(1, 0, "ret0"), N(PA)),              \* returns zero
-    Pred(TRUE, P(0, 0, "rvrt"), "11"),               \* reverts
+    Pred(TRUE, P(0, 0, "ret2"), "14"),               \* returns two (MOVI ; RET: 3 + 11)
     Pred(TRUE, P(1, 0, "retd"), "100"),              \* panics
     Pred(TRUE, P(0, 0, "spin"), "40"),               \* never terminates
     Pred(TRUE, PB, N(PB)),                           \* authorised, other program (loop)
     Pred(TRUE, PBig, N(PBig)) }                      \* authorised, need above the estimation cap
 \* estimation ignores the declared gas: one representative per program / owner
 EstimateVariants == {
-    Pred(TRUE, PA, "0"), Pred(FALSE, PA, "0"), Pred(TRUE, P(1, 0, "ret0"), "0"), Pred(TRUE, P(0, 0, "rvrt"), "0"),
+    Pred(TRUE, PA, "0"), Pred(FALSE, PA, "0"), Pred(TRUE, P(1, 0, "ret0"), "0"), Pred(TRUE, P(0, 0, "ret2"), "0"),
     Pred(TRUE, P(1, 0, "retd"), "0"), Pred(TRUE, P(0, 0, "spin"), "0"), Pred(TRUE, PB, "7"), Pred(TRUE, PBig, "0") }
 
 Signed(w, o) == [k |-> "signed", w |-> w, owner |-> o]
